@@ -433,7 +433,7 @@ func genQ1(r *vlib.R, k *int, cfgLine string) (string, string, uint16, uint16, b
 	scn := vlib.Pick(r, scenarios)
 	u := uniq(r, k)
 	name := mixCase(r, scn) + "." + u + "-@.zt."
-	qt := vlib.Pick(r, []int{1, 1, 1, 1, 28, 16, 5, 15, 43, 46, 255, 6})
+	qt := vlib.Pick(r, []int{1, 1, 1, 1, 28, 16, 5, 15, 43, 46, 255, 6, 65280, 0, 41})
 	if scn == "big" || scn == "mid" {
 		qt = 16
 	}
@@ -645,6 +645,35 @@ func gen(r *vlib.R, n int, tier string, emit func(string)) {
 			emit(fmt.Sprintf("rl step proto=%s ck=%s%s", vlib.Pick(r, []string{"udp", "udp", "tcp"}), ck, extra))
 		}
 	}
+	// the cache-contained alias chase: chains of 1-11 cached hops with every way a hop can be unusable
+	emit("ch new")
+	for c := 0; c < n/60+20; c++ {
+		depth := 1 + r.Intn(4)
+		if r.Chance(1, 6) {
+			depth = 8 + r.Intn(4)
+		}
+		var hops []string
+		for i := 0; i < depth; i++ {
+			ad := r.Intn(4) / 3 ^ 1 // mostly authenticated
+			ttl := vlib.Pick(r, []int{60, 200, 300, 300, 5})
+			tgt := i + 1
+			switch {
+			case r.Chance(1, 14):
+				tgt = r.Intn(i + 1) // back at the question or at an earlier hop
+			case r.Chance(1, 20):
+				tgt = i // self
+			}
+			hops = append(hops, fmt.Sprintf("c:%d:%d:%d", ad, ttl, tgt))
+		}
+		last := vlib.Pick(r, []string{"a", "a", "a", "a", "n", "e", "s", "x"})
+		if last == "x" {
+			hops = append(hops, "x")
+		} else {
+			hops = append(hops, fmt.Sprintf("%s:%d:%d:0", last, r.Intn(4)/3^1, vlib.Pick(r, []int{60, 300, 5})))
+		}
+		emit(fmt.Sprintf("ch run qt=%d cd=%d el=%d hops=%s", vlib.Pick(r, []int{1, 1, 1, 15}), b2i(r.Chance(1, 4)),
+			vlib.Pick(r, []int{400, 400, 7500, 5300, 100300, 250700}), strings.Join(hops, ",")))
+	}
 	zonePool := []string{"10.in-addr.arpa.", "168.192.in-addr.arpa.", "5.10.IN-ADDR.arpa.", "16.172.in-addr.arpa.", "d.f.ip6.arpa.", "8.e.f.ip6.ARPA.", "254.169.in-addr.arpa."}
 	for c := 0; c < n/600+2; c++ {
 		var zs []string
@@ -684,6 +713,15 @@ func gen(r *vlib.R, n int, tier string, emit func(string)) {
 					for cd := 0; cd < 2; cd++ {
 						for _, cl := range []string{"do=0 small=0", "do=1 small=0", "do=1 small=1", "do=0 small=1"} {
 							emit(fmt.Sprintf("lad run ex=%d cut=%d fail=%s cd=%d %s nm=%s", ex, cut, fail, cd, cl, uniq(r, &k)))
+							budget--
+						}
+						// the gates in front of the ladders (no entry can exist for an unknown type / class;
+						// a cut is recorded for class IN)
+						for _, pre := range []string{"nord", "ecs", "utype", "uclass"} {
+							if (pre == "utype" || pre == "uclass") && ex == 1 || pre == "uclass" && cut == 1 {
+								continue
+							}
+							emit(fmt.Sprintf("lad run ex=%d cut=%d fail=%s cd=%d do=%d small=0 pre=%s nm=%s", ex, cut, fail, cd, r.Intn(2), pre, uniq(r, &k)))
 							budget--
 						}
 					}
